@@ -10,7 +10,7 @@
    and every count. *)
 From stdpp Require Import gmap sets fin_sets sorting.
 From Coq Require Import ZArith.
-From NV Require Import CpuAlloc_Model CpuAlloc_Proofs.
+From NV Require Import CpuAlloc_Model CpuAlloc_Proofs CpuAlloc_Determ.
 Open Scope Z_scope.
 
 (* clause 1: allocating n <= |set| CPUs returns exactly n CPUs taken from the set and removes
@@ -86,3 +86,22 @@ Theorem C08_sorted_perm_unique : forall (A : Type) (less : A -> A -> bool) l1 l2
   forcedb less l1 = true -> l2 ≡ₚ l1 -> Sorted (fun a b => less b a = false) l2 -> l2 = l1.
 Proof. exact @sorted_perm_unique. Qed.
 Print Assumptions C08_sorted_perm_unique.
+
+(* determinism, part 3 (whole call): if every sort of a run of the model is forced (level 0 --
+   computed by the kernel for every case of the correspondence and reported in the evidence), then
+   every order record whose functions return permutations that are sorted for the Go comparators
+   on forced inputs -- i.e. any correct sorting algorithm -- yields the same outcome and the same
+   remaining set.  "_partial": for runs that contain an unforced sort (ties / non-transitive
+   comparator) determinism rests on Go's sort being a deterministic algorithm on a deterministic
+   input order; that is validated (each case run twice on fresh allocators), not proved. *)
+Theorem C08_alloc_deterministic_forced_partial : forall t p o2 flags from cnt,
+  valid_sorter t p o2 ->
+  (allocate_cpus t (go_orders t p) p flags from cnt).2 = 0%N ->
+  (allocate_cpus t o2 p flags from cnt).1 = (allocate_cpus t (go_orders t p) p flags from cnt).1.
+Proof. exact alloc_deterministic_forced. Qed.
+Print Assumptions C08_alloc_deterministic_forced_partial.
+
+(* its hypothesis on the order record is satisfiable (by the modelled orders themselves) *)
+Theorem C08_valid_sorter_satisfiable : forall t p, valid_sorter t p (go_orders t p).
+Proof. exact go_valid_sorter. Qed.
+Print Assumptions C08_valid_sorter_satisfiable.
